@@ -16,7 +16,7 @@
    rejection final is modelled in H1/Gate.v (section 8). *)
 From AV Require Import Lib.Base Gen.Consts H1.Chunked H1.ChunkedSpec H1.ChunkedProofs H1.PayloadDec
   H1.PayloadDecProofs H1.Framing H1.FramingProofs H1.Codec H1.SimpleHead H1.CodecProofs
-  H1.CodecSegProofs H1.Gate H1.GateProofs H1.ChunkedSound.
+  H1.CodecSegProofs H1.Gate H1.GateProofs H1.ChunkedSound H1.GateExec H1.GateExecProofs H1.GateSegProofs.
 
 (* ===== 1. segmentation independence of the body decoders (unbounded) ======================= *)
 
@@ -339,6 +339,43 @@ Theorem C01_gate_rejection_disconnects : forall head (ops : list gop),
   let g := gexec head H1_MAX_BUFFER_SIZE H1_MAX_PIPELINED_MESSAGES ops gate0 in
   g_rejected g <> None -> g_read_disconnect g = true.
 Proof. intros head ops g. apply (gexec_inv head _ _ ops gate0). intro H; contradiction. Qed.
+
+(* the executable gate run by the correspondence driver (H1/GateExec.v: leftover computed as the
+   code leaves it, read loop stops at MAX_BUFFER_SIZE) is an instance of the gate model, and the
+   clause holds for it *)
+Theorem C01_xgate_nothing_after_reject : forall head (ops1 ops2 : list xop) e,
+  let ex := xexec head H1_MAX_BUFFER_SIZE H1_MAX_PIPELINED_MESSAGES in
+  g_rejected (ex ops1 gate0) = Some e ->
+  g_msgs (ex (ops1 ++ ops2) gate0) = g_msgs (ex ops1 gate0) /\
+  g_rejected (ex (ops1 ++ ops2) gate0) = Some e.
+Proof. intros head ops1 ops2 e ex H. apply xexec_nothing_after_reject. exact H. Qed.
+
+(* what the application sees THROUGH THE GATE does not depend on the segmentation, exactly outside
+   the band of finding F19: under any read schedule [segs] (one read_available + one poll_request
+   per segment; the read loop's MAX_BUFFER_SIZE stop and the Partial-head TooLarge rule included),
+   the messages, rejection, codec state and unread bytes are those of draining the whole stream *)
+Theorem C01_gate_segmentation : forall head, HeadLaws head -> head [] = HPartial ->
+  forall segs : list bytes,
+  NoBand head H1_MAX_BUFFER_SIZE (concat segs) ->
+  let g := xexec head H1_MAX_BUFFER_SIZE H1_MAX_PIPELINED_MESSAGES (read_ops segs) gate0 in
+  match onorm (run head H1_MAX_BUFFER_SIZE (run_fuel (concat segs)) codec0 (concat segs) []) with
+  | ONeedMore c r ms => g_msgs g = ms /\ g_rejected g = None /\ g_codec g = c /\ g_read_buf g = r
+  | OError EIo ms => g_rejected g = Some EIo /\ drop_last_body (g_msgs g) = ms
+  | OError e ms => g_rejected g = Some e /\ g_msgs g = ms
+  | OPanic | OFuel => True
+  end.
+Proof.
+  intros head HL H0 segs Hnb g.
+  pose proof (gate_reads_eq_feed head H1_MAX_BUFFER_SIZE H1_MAX_PIPELINED_MESSAGES eq_refl eq_refl HL
+                segs codec0 [] [] 0 I eq_refl) as A.
+  pose proof (feed_eq_run head H1_MAX_BUFFER_SIZE HL segs eq_refl H0 Hnb) as E.
+  rewrite <- E. change (gate_of codec0 [] [] 0) with gate0 in A. fold g in A.
+  destruct (feed head H1_MAX_BUFFER_SIZE segs codec0 [] []) as [c r ms|e ms| |]; cbn [onorm agrees] in *.
+  - destruct A as [q ->]. cbn. auto.
+  - destruct A as (A1 & A2 & _). destruct e; cbn [onorm]; rewrite ?A1; auto.
+  - exact I.
+  - exact I.
+Qed.
 
 (* non-vacuity: GET /ok | POST with Content-Length AND Transfer-Encoding | GET /smuggled in one
    read: one request is delivered, the second is rejected (ParseError::Header -> 400), and polling
